@@ -101,4 +101,62 @@ def exchangeBuf (readsOnly : Bool) (srv tcp : Bytes → Except Nat Bytes) (atts 
   | (.error e, b) => (.error e, none, b)
   | (.ok r, b) => if tcBit r then (tcp b, some b, b) else (.ok r, none, b)
 
+/-! ## The TCP half: connections that do not match replies to queries
+
+`udpWithFallback.t` is a `ReuseConnTransport`: it does not look at ids, a reply read
+from a connection goes to whoever waits on that connection. "The TCP reply is what
+the caller gets" therefore rests on: a connection is handed to a caller only when
+no reply is owed on it. Below one connection's life: `owed` are the queries written
+on it whose reply has not been read yet (oldest first; the server answers in order
+and a reply is identified with the query it answers), `waiter` is the query of the
+caller waiting on it, `idle` says whether the pool may hand it out. What happens to
+the connection when a waiting caller gives up (context ended) is a parameter, read
+from the source (T2 fact `c17TcpConnIdleOnlyWhenNothingOwed`). -/
+
+structure TConn where
+  owed : List Bytes
+  waiter : Option Bytes
+  idle : Bool
+  deriving Repr
+
+/-- A freshly dialled connection. -/
+def TConn.fresh : TConn := ⟨[], none, true⟩
+
+inductive CEv where
+  /-- the pool hands the connection to a caller with query `q` (only idle connections are handed out) -/
+  | take (q : Bytes)
+  /-- the caller waiting on the connection stops waiting (its context ended) -/
+  | giveUp
+  /-- the reply to the oldest owed query is read from the connection -/
+  | reply
+  deriving Repr
+
+/-- One event on a connection: the connection afterwards and, when a reply is handed
+to a caller, the pair (query of that caller, query the reply answers). -/
+def cstep (idleOnGiveUp : Bool) (c : TConn) : CEv → TConn × Option (Bytes × Bytes)
+  | .take q => if c.idle then (⟨c.owed ++ [q], some q, false⟩, none) else (c, none)
+  | .giveUp =>
+    match c.waiter with
+    | some _ => (⟨c.owed, none, idleOnGiveUp⟩, none)
+    | none => (c, none)
+  | .reply =>
+    match c.owed with
+    | [] => (c, none)
+    | o :: rest =>
+      match c.waiter with
+      | some w => (⟨rest, none, true⟩, some (w, o))
+      | none =>
+        -- nobody waits: an idle connection is closed (unexpected reply), a busy one
+        -- (its caller gave up) becomes idle
+        if c.idle then (⟨[], none, false⟩, none) else (⟨rest, none, true⟩, none)
+
+/-- The replies handed to callers over a sequence of events. -/
+def crun (idleOnGiveUp : Bool) : TConn → List CEv → List (Bytes × Bytes)
+  | _, [] => []
+  | c, e :: es => (cstep idleOnGiveUp c e).2.toList ++ crun idleOnGiveUp (cstep idleOnGiveUp c e).1 es
+
+/-- Nothing is owed on an idle connection, and a waiter is owed exactly its own reply. -/
+def TConn.ok (c : TConn) : Prop :=
+  (c.idle = true → c.owed = [] ∧ c.waiter = none) ∧ (∀ w, c.waiter = some w → c.owed = [w]) ∧ c.owed.length ≤ 1
+
 end Model.C17
